@@ -154,7 +154,7 @@ FileInfo BuildNode::getLinkInfo(basic::FileSystem& fileSystem) const {
 
 basic::CommandSignature BuildNode::getSignature() const {
   basic::CommandSignature sig;
-  sig.combine(static_cast<unsigned int>(type));
+  sig.combine(static_cast<uint64_t>(type));
   // We include the name of all producer rules in the signature to ensure that
   // we properly pick up changes in build graph structure.  For example, a node
   // that was previously a plain input that has changed to become a produced
